@@ -520,7 +520,9 @@ func (w *World) Close() {
 	if w.child != nil {
 		w.child.Kill()
 	}
-	os.RemoveAll(w.Dir)
+	if os.Getenv("VERIF_KEEPDIR") == "" { // diagnosis only: keep the run directory (logs, stores)
+		os.RemoveAll(w.Dir)
+	}
 }
 
 // KeepDir moves the durable directory aside (for replay files of crash runs).
